@@ -71,3 +71,15 @@ package wazero
 //@   ensures[run]  compiles ==> run_contract(err)
 //@   noframe
 //@   property C29
+
+// ---- C30: RunFunc hands back only what the called function printed: the output buffers are cleared after
+// the module has been instantiated (instantiation runs the package initialisers, whose output must not be
+// attributed to the first test), and before the call.
+//@ extern (*bytes.Buffer).Reset
+//@   trusted
+//@ func (*Module).RunFunc
+//@   requires p != nil
+//@   site (*bytes.Buffer).Reset.0 assert p.wazeroModule != nil && p.wazeroInitErr == nil
+//@   site (*bytes.Buffer).Reset.1 assert p.wazeroModule != nil && p.wazeroInitErr == nil
+//@   noframe
+//@   property C30
